@@ -20,10 +20,16 @@ if rc != 0:
     print("extract.py reported failures (checks will report them)")
 sh([sys.executable, os.path.join(HERE, "genlean.py")], VERIF)
 import glob
-exes = ["smd_" + os.path.basename(p)[:-5] for p in glob.glob(os.path.join(VERIF, "lean", "SophiaModel", "Driver", "C*.lean"))]
-rc = sh(["lake", "build", "SophiaModel", "SophiaProofs"] + exes, os.path.join(VERIF, "lean"))
-if rc != 0:
-    print("lake build failed (checks will report it)")
+sys.path.insert(0, HERE)
+import props as P  # noqa: E402
+rc = sh(["lake", "build", "SophiaModel"], os.path.join(VERIF, "lean"))
+# property modules are built by name, one lake call per property, so that one broken property does
+# not stop the others
+for prop, cfg in sorted(P.PROPS.items()):
+    targets = cfg.get("lean_targets", ["SophiaProofs.Props." + prop]) + ["smd_" + prop]
+    rc = sh(["lake", "build"] + targets, os.path.join(VERIF, "lean"))
+    if rc != 0:
+        print("lake build failed for %s (its check will report it)" % prop)
 for d in sorted(glob.glob(os.path.join(VERIF, "harness", "props", "c*"))):
     rc = sh([sys.executable, os.path.join(HERE, "cb.py"), os.path.basename(d)], VERIF)
     if rc != 0:
